@@ -14,10 +14,13 @@ import subprocess
 import sys
 import time
 
+import os as _os
 ID, NAME = sys.argv[1], sys.argv[2]
 CHECKS = sys.argv[3:]
 WT = '/tmp/seed/' + ID
-OUT = '/verif/seeded/' + NAME
+VERIF = os.path.dirname(os.path.dirname(os.path.abspath(__file__)))
+INPLACE = bool(os.environ.get('SEED_INPLACE'))     # run the checks against the worktree itself instead of patching /repo
+OUT = VERIF + '/seeded/' + NAME
 ENV = dict(os.environ, CARGO_NET_OFFLINE='true')
 
 
@@ -47,7 +50,7 @@ def main():
     open(os.path.join(OUT, 'patch.diff'), 'w').write(patch)
     meta = {'id': NAME, 'worktree': WT, 'ran': []}
     # 1. suite with the change
-    rc, out = sh('/verif/tools/baseline.sh ' + WT)
+    rc, out = sh(VERIF + '/tools/baseline.sh ' + WT)
     meta['suite_with_change'] = out.strip().split('\n')[-3:]
     print('suite with change:', meta['suite_with_change'])
     suite_ok = rc == 0
@@ -65,21 +68,23 @@ def main():
     meta['demo_passes_without_change'] = ok_without
     print('demo with change passes=%s ; without change passes=%s' % (ok_with, ok_without))
     # 3. checks on /repo with the patch
-    rc, st = sh('git status --short', '/repo')
-    assert not st.strip(), '/repo not clean: ' + st
-    rc, out = sh('git apply /tmp/seed/%s.patch' % ID, '/repo')
-    assert rc == 0, out
+    if not INPLACE:
+        rc, st = sh('git status --short', '/repo')
+        assert not st.strip(), '/repo not clean: ' + st
+        rc, out = sh('git apply /tmp/seed/%s.patch' % ID, '/repo')
+        assert rc == 0, out
     results = {}
     try:
         for c in CHECKS:
             t0 = time.time()
-            rc, out = sh('./check %s --tier quick' % c, '/verif')
+            rc, out = sh(('HYEONG_REPO=%s ' % WT if INPLACE else '') + './check %s --tier quick' % c, VERIF)
             lines = [l for l in out.split('\n') if 'violations=' in l or l.startswith('VIOLATION') or 'classes (all' in l or 'MACHINERY' in l]
             results[c] = {'exit': rc, 'wall_s': round(time.time() - t0, 1), 'summary': lines[:3]}
             print(c, rc, lines[:3])
     finally:
-        sh('git checkout -- .', '/repo')
-        sh('rm -f /verif/replays/*.json')
+        if not INPLACE:
+            sh('git checkout -- .', '/repo')
+        sh('rm -f %s/replays/*.json' % VERIF)
     meta['checks'] = results
     meta['detected_by'] = [c for c, r in results.items() if r['exit'] == 1]
     meta['confirmed'] = bool(suite_ok and not ok_with and ok_without)
